@@ -112,8 +112,10 @@ func (r *result) seen(h uint64, nontrivial bool) {
 func (r *result) write(path string) error {
 	r.mu.Lock()
 	defer r.mu.Unlock()
-	r.Counters["distinct_nontrivial"] = int64(len(r.distinct))
-	r.Counters["distinct_cases"] = int64(len(r.distinctAll))
+	if len(r.distinctAll) > 0 {
+		r.Counters["distinct_nontrivial"] = int64(len(r.distinct))
+		r.Counters["distinct_cases"] = int64(len(r.distinctAll))
+	}
 	b, err := json.MarshalIndent(r, "", " ")
 	if err != nil {
 		return err
